@@ -70,7 +70,7 @@ def parse_inv(lines):
     return out
 
 
-def check_pop(exe, env, model_exe, workdir, tag, s, pop, text, off, orders):
+def check_pop(exe, env, model_exe, workdir, tag, s, pop, text, off, orders, budget=True):
     """returns problems [(kind, detail, order)]"""
     path = os.path.join(workdir, f"{tag}.p21")
     with open(path, "wb") as fh:
@@ -78,8 +78,13 @@ def check_pop(exe, env, model_exe, workdir, tag, s, pop, text, off, orders):
     maxid = max([x["id"] for x in pop] + [0]) + 2
     byid = {x["id"]: x for x in pop}
     problems = []
+    if budget and C10.BUDGET.exhausted():
+        C10.BUDGET.skipped += 1
+        return [("skipped", "not run: the run's budget was used up", [])]
     for o in orders:
         rc, out, err = C10.run_h(exe, env, path, maxid, "load", o)
+        if budget and C10.is_fatal(rc) and not (rc == 98 and "judy.c" in err and "misaligned" in err):
+            C10.BUDGET.fatal_seen(tag)
         calls, cached, invl, ended = C10.parse_load(out)
         if rc == 98 and "judy.c" in err and "misaligned" in err:
             problems.append(("skipped", "UBSan abort inside the bundled judy.c (misaligned load; not C11's statement)", o))
@@ -88,6 +93,8 @@ def check_pop(exe, env, model_exe, workdir, tag, s, pop, text, off, orders):
             last = [l for l in err.strip().splitlines() if "runtime error" in l or "ERROR: AddressSanitizer" in l or "Assertion" in l]
             problems.append(("property", f"loading {o} and reading the inverse attributes ended rc={rc}: "
                              f"{(last[0] if last else err.strip()[-200:])[:300]}", o))
+            if C10.is_fatal(rc):
+                break          # the other histories of this population would wait for the same time-out
             continue
         got = parse_inv(invl)
         reqs, keys = [], []
@@ -199,9 +206,15 @@ def run(ctx):
             return j, check_pop(exes[si], env, model_exe, ctx.work, tag, s, pop, text, off, orders)
         except Exception as e:
             return j, [("machinery", f"{type(e).__name__}: {e}", [])]
+    C10.BUDGET = C10.Budget(wall_s=120.0 if quick else 720.0, max_fatal=3, shrink_s=30.0 if quick else 60.0)
+    C10.RETRY.on = True
     t0 = time.time()
     with cf.ThreadPoolExecutor(max_workers=14) as ex:
-        results = list(ex.map(work, jobs))
+        results = list(ex.map(work, jobs[:14]))
+        C10.BUDGET.calibrate()
+        results += list(ex.map(work, jobs[14:]))
+    ctx.cov["correspondence"]["budget"] = {"per-process time-out s": round(C10.BUDGET.timeout, 2), "populations with hang/signal": len(C10.BUDGET.fatal),
+                                           "populations not run (budget used up)": C10.BUDGET.skipped}
     nprob = sum(1 for _, pr in results if [p for p in pr if p[0] != 'skipped' and not p[0].startswith('class:')])
     ctx.cov["correspondence"]["populations"] = {"n": len(jobs), "with_problems": nprob, "wall_s": round(time.time() - t0, 1)}
     for (si, tag, s, pop, text, off, orders), pr in results:
@@ -224,9 +237,11 @@ def run(ctx):
 
             def fails(pp, oo):
                 t, o_ = G.render_file(ctx.rng, s, pp, lay=False, cmt=False)
-                return [p for p in check_pop(exes[si], env, model_exe, ctx.work, "shrink", s, pp, t, o_, [oo]) if p[0] == "property"]
+                return [p for p in check_pop(exes[si], env, model_exe, ctx.work, "shrink", s, pp, t, o_, [oo], budget=False) if p[0] == "property"]
             cur, changed = pop, True
-            while changed and len(cur) > 1:
+            deadline = time.time() + C10.BUDGET.shrink_s
+            C10.RETRY.on = False
+            while changed and len(cur) > 1 and time.time() < deadline:
                 changed = False
                 for x in list(cur):
                     cand = C10.drop_instance(cur, x["id"])
@@ -237,12 +252,13 @@ def run(ctx):
                         cur, order, changed = cand, oo, True
                         break
             det = fails(cur, order)
+            C10.RETRY.on = True
             text2, off2 = G.render_file(ctx.rng, s, cur, lay=False, cmt=False)
             invs = ";".join(f"{e['name']}.{n}:{'SET' if a else 'ONE'}:{o}.{at}" for e in s["entities"] for (n, a, o, at) in e.get("inverses", []))
             ctx.violation("inv:" + invs + "|" + C10.key_of(s, cur, text2, off2), det[0][1] if det else props[0][1],
                           {"schema": G.express(s), "file": text2, "load_orders": [order],
                            "how": "exp2cxx the schema, link harness/h_lazy.cc (ASan+UBSan build), run `h_lazy FILE MAXID load ids..` and read the INV lines"})
-    ctx.cov["correspondence"]["skipped (judy.c alignment abort under UBSan)"] = sum(1 for _, pr in results for p in pr if p[0] == "skipped")
+    ctx.cov["correspondence"]["skipped (judy.c alignment abort under UBSan)"] = sum(1 for _, pr in results for p in pr if p[0] == "skipped" and "judy" in p[1])
     if not ctx.violations:
         for (si, tag, s, pop, text, off, orders), pr in results:
             for kind, det, o in [p for p in pr if p[0] != "skipped" and not p[0].startswith("class:")]:
